@@ -447,8 +447,17 @@ def run(ctx):
     from ._dispatch import check_dispatcher
     from .c16 import check_reassembly
 
-    check_dispatcher(ctx, "C08.S1", wakeups=True, consumers=False, reconnect=False)
+    check_dispatcher(ctx, "C08.S1", wakeups=True, consumers=True, reconnect=False)  # incl. the unbounded dispatch queue: a burst of primaries must not park the thread that writes the replies
     report.share(ctx, "C08.S1", check_reassembly)
+    # a header-only message (S1F1 W, the SxF0 abort) is one block on the serial line, and the bytes of a primary are waited
+    # for without a deadline that would hand a short read to the decoder (C16.P1, byte-queue group of C04/C17)
+    from .c04 import check_byte_queue
+    from .c09 import check_bytequeue_wait
+    from .c16 import check_split
+
+    report.share(ctx, "C08.S1", check_split)
+    check_byte_queue(ctx, "C08.S1")
+    check_bytequeue_wait(ctx, "C08.S1")
     # ... and only if its frame is cut from the byte stream exactly, complete and without leaving frames behind (shared with C04.P1)
     from .c04 import check_framing
 
